@@ -215,7 +215,9 @@ def _fill_repetition(rng, node, scope, opts):
     elif kind == "closed_form":
         # the placeholder is a bound name of the formula: now and then it is spelled like a name of an outer scope
         tn = "T_n"
-        if rng.random() < opts.p_placeholder_clash:
+        if count[0] == "sym" and rng.random() < 0.3:
+            tn = count[1]      # the customary way of writing a closed form: in terms of the count symbol itself
+        elif rng.random() < opts.p_placeholder_clash:
             tn = rng.choice([x for x in POOL if x not in scope] or ["T_n"])
         body = E.bin_("+", E.bin_("*", E.sym(tn), E.bin_("+", E.sym(tn), par())), E.num(rng.randint(0, 2)))
         prod = E.bin_("**", E.num(2), E.sym(tn)) if rng.random() < 0.5 else None
@@ -299,7 +301,8 @@ def _decorate(rng, node, opts, is_root, under_rep=False, no_mult=False):
                     ty = rng.choice(all_types)     # mixed typing: same name, different type than elsewhere
                 node["resources"].append({"name": rname, "type": ty, "value": val})
         if opts.qubit_mode and rng.random() < 0.5 and not under_rep:
-            node["resources"].append({"name": "local_ancillae", "type": "qubits",
+            # (the type is customarily `qubits`, but any resource of that NAME counts as the routine's ancillae)
+            node["resources"].append({"name": "local_ancillae", "type": rng.choice(["qubits"] * 4 + ["other", "additive"]),
                                       "value": gen_poly(rng, scope, 1, positive=True)})
     if rng.random() < opts.p_shuffle_children:
         rng.shuffle(node["children"])
